@@ -18,7 +18,7 @@ def jobs(tier, seed):
     J('small', P=1, C=0, S=1, F=1)
     J('2x1x2x2', P=2, C=1, S=2, F=2, ex_type=2, ex_ndim=2, ex_d0=2, ex_d1=2, ex_n=4, ex_nlen=3, ex_dlen=2)
     if tier == 'thorough':
-        for j in [x for x in c01.jobs('quick', seed) if x.get('name') != 'hist'][:27]: J('api', **{k: v for k, v in j['cfg'].items()})
+        for j in [x for x in c01.jobs('quick', seed) if x.get('name') != 'hist' and not x['cfg']['symnames'] and not (x['cfg']['ex_group'] == 1 and x['cfg']['ex_nlen'] >= 4)][:27]: J('api', **{k: v for k, v in j['cfg'].items()})
     lo = [j for j in c02.jobs('quick', seed) if j['name'] in (('analog_empty',) if tier == 'quick' else ('analog_empty', 'plain', 'events3', 'sparse_ids', 'no_points', 'labels_fewer'))]
     for j in lo:
         j = dict(j); j['entry'] = 'h_c15'; j['harness'] = 'h_c01.cpp'; j['cfg'] = {'source': 1}; j['variant'] = j['name']; j['name'] = 'loaded'
